@@ -400,7 +400,20 @@ pub fn run_c11(seed: u64, runno: u64, solver_bound: u32) -> Acc {
     if root.is_terminal() {
         return acc;
     }
-    let game = Game { start: root.clone(), moves: vec![], source: "c11" };
+    // half of the roots carry a game history (a there-and-back shuffle: every position of it
+    // occurred once or twice before), so that repetition bookkeeping is live under the mates
+    let moves = if rng.chance(1, 2) {
+        // exactly one cycle: the root then occurred twice, every other position of the history
+        // once - nothing the mover can step into is a (legitimate, C10) repetition draw yet
+        let m = workload::shuffle_game(&mut rng, &root, 1, 0);
+        if m.len() == 4 { m } else { vec![] }
+    } else {
+        vec![]
+    };
+    if !moves.is_empty() {
+        acc.count("c11_roots_with_history");
+    }
+    let game = Game { start: root.clone(), moves, source: "c11" };
     judge_c11(&game, solver_bound, &mut acc, runno, &z);
     acc
 }
@@ -516,7 +529,8 @@ pub fn judge_c11(game: &Game, solver_bound: u32, acc: &mut Acc, runno: u64, z: &
 /// has a move into a position that already occurred `want` (>= 2) times
 pub fn gen_repetition_root(rng: &mut Rng, want: u32, z: &ZobristHasher) -> Option<Game> {
     for _ in 0..40 {
-        let x = workload::gen_position(rng);
+        let lookalike = rng.chance(1, 3);
+        let x = if lookalike { workload::template_castle_lookalike(rng) } else { workload::gen_position(rng) };
         if x.is_terminal() {
             continue;
         }
